@@ -42,10 +42,21 @@ class Pool:
         self.nworkers = nworkers
         self.shard_timeout = shard_timeout
         self.failures: list[str] = []
+        self.stalls: list[dict] = []          # cases a worker was stuck in (native code the step monitor cannot see)
+        self.stall_seconds = 0.0
+        self._nspawn = 0
 
     def _spawn(self) -> subprocess.Popen:
         env = dict(os.environ)
         env["VERIF_SCRATCH"] = self.scratch
+        self._nspawn += 1
+        hb = os.path.join(self.scratch, f"heartbeat-{self._nspawn}.json")
+        env["VERIF_HEARTBEAT"] = hb
+        proc = self._popen(env)
+        proc.heartbeat_path = hb          # type: ignore[attr-defined]
+        return proc
+
+    def _popen(self, env: dict) -> subprocess.Popen:
         return subprocess.Popen(
             [sys.executable, "-W", "ignore::DeprecationWarning", "-m", "vf.core.worker", self.pid],
             stdin=subprocess.PIPE,
@@ -79,7 +90,29 @@ class Pool:
                     box: list = []
                     t = threading.Thread(target=lambda: box.append(proc.stdout.readline()), daemon=True)
                     t.start()
-                    t.join(self.shard_timeout)
+                    deadline = time.time() + self.shard_timeout
+                    stalled = None
+                    while t.is_alive() and time.time() < deadline and stalled is None:
+                        t.join(2.0 if self.stall_seconds else self.shard_timeout)
+                        if t.is_alive() and self.stall_seconds:
+                            try:
+                                with open(proc.heartbeat_path, encoding="utf-8") as f:
+                                    hb = json.load(f)
+                                if time.time() - hb["t"] > self.stall_seconds:
+                                    stalled = hb
+                            except (OSError, ValueError, KeyError):
+                                pass
+                    if stalled is not None:
+                        proc.kill()
+                        with lock:
+                            self.stalls.append(stalled)
+                        proc = None
+                        if len(shard.get("skip", [])) < 4 and len(self.stalls) < 12:
+                            q.put((i, dict(shard, skip=list(shard.get("skip", [])) + [stalled.get("key")])))
+                        else:
+                            with lock:
+                                self.failures.append(f"shard {i}: too many stalled cases ({len(self.stalls)} in this run), rest of the shard not run")
+                        continue
                     if t.is_alive():
                         proc.kill()
                         with lock:
@@ -226,8 +259,26 @@ def main() -> int:
         shards = mod.plan(tier, seed)
         timeout = float(os.environ.get("VERIF_SHARD_TIMEOUT", "0")) or (900.0 if tier == "quick" else 5400.0)
         pool = Pool(pid, scratch, NWORKERS, timeout)
+        pool.stall_seconds = float(getattr(mod, "STALL_SECONDS", 0) or 0)
         results = pool.run(shards)
         agg = merge(results)
+        # a worker sat in one case for longer than STALL_SECONDS: the check re-runs such cases alone (the first few, in parallel) and decides
+        verdicts: dict[int, object] = {}
+        confirm = pool.stalls[:4]
+        ths = [threading.Thread(target=lambda k=k, hb=hb: verdicts.__setitem__(k, mod.confirm_stall(hb))) for k, hb in enumerate(confirm)]
+        for th in ths:
+            th.start()
+        for th in ths:
+            th.join()
+        for k, hb in enumerate(confirm):
+            verdict = verdicts.get(k)
+            if isinstance(verdict, dict):
+                agg["viol_counts"][verdict["mechanism"]] += 1
+                agg["violations"].append(verdict)
+            else:
+                agg["inconclusive"].append(f"worker stalled on a case that finished when run alone ({verdict}): {str(hb.get('key'))[:120]!r}")
+        if len(pool.stalls) > len(confirm):
+            agg["counters"]["stalled_cases_not_individually_confirmed"] += len(pool.stalls) - len(confirm)
         for fmsg in pool.failures:
             agg["inconclusive"].append(fmsg)
         if hasattr(mod, "finish"):
